@@ -378,6 +378,85 @@ Proof.
   - destruct js as [|? ?]; discriminate.
 Qed.
 
+(* ------------------------------------------------------------------ JavaScript's readings = the Go-side helpers *)
+Lemma split_match_prefix r rest :
+  split_match r rest = if prefixb r rest then Some (skipn (length r) rest) else None.
+Proof.
+  revert rest; induction r as [|a r IH]; intros rest; simpl; [reflexivity|].
+  destruct rest as [|b rest]; [reflexivity|]. destruct (Ascii.eqb a b); [apply IH|reflexivity].
+Qed.
+
+Lemma js_loop_go r cur rest f1 f2 :
+  r <> [] -> length rest < f1 -> length rest < f2 ->
+  js_split_loop f1 r cur rest = split_go f2 r rest cur.
+Proof.
+  intros Hr. revert f2 cur rest. induction f1 as [|f1 IH]; intros f2 cur rest H1 H2; [lia|].
+  destruct f2 as [|f2]; [lia|]. simpl. destruct rest as [|c rest']; [reflexivity|].
+  rewrite split_match_prefix. simpl in H1, H2.
+  destruct (prefixb r (c :: rest')) eqn:Ep.
+  - destruct r as [|a r']; [congruence|]. simpl is_nil. simpl andb. cbv iota.
+    f_equal. apply IH.
+    + simpl. pose proof (skipn_length (length r') rest'). lia.
+    + simpl. pose proof (skipn_length (length r') rest'). lia.
+  - apply IH; lia.
+Qed.
+
+Lemma js_loop_explode rest : forall c f, 2 * length rest < f ->
+  js_split_loop f [] [c] rest = [c] :: map (fun x => [x]) rest.
+Proof.
+  induction rest as [|d t IH]; intros c f Hf.
+  - destruct f; [lia|]. reflexivity.
+  - simpl in Hf. destruct f as [|[|f]]; try lia. simpl. f_equal. apply IH. lia.
+Qed.
+
+Lemma js_split_eq r s : js_split r s = str_split r s.
+Proof.
+  destruct r as [|a r].
+  - destruct s as [|c t]; [reflexivity|]. unfold js_split, str_split.
+    change (js_split_loop (S (2 * length (c :: t))) [] [] (c :: t)) with (js_split_loop (2 * length (c :: t)) [] [c] t).
+    rewrite js_loop_explode; [reflexivity|simpl; lia].
+  - destruct s as [|c t]; [reflexivity|]. unfold js_split, str_split.
+    apply js_loop_go; [discriminate|lia|lia].
+Qed.
+
+Lemma prefixb_firstn r s : prefixb r s = beqb (firstn (length r) s) r.
+Proof.
+  destruct (prefixb r s) eqn:E.
+  - apply prefixb_spec in E. destruct E as [t ->]. symmetry. apply beqb_eq.
+    rewrite firstn_app, firstn_all, Nat.sub_diag. simpl. apply app_nil_r.
+  - symmetry. apply beqb_neq. intros H. assert (prefixb r s = true); [|congruence].
+    apply prefixb_spec. exists (skipn (length r) s). rewrite <- H at 1. symmetry. apply firstn_skipn.
+Qed.
+
+Lemma find_map {A B} (f : B -> bool) (g : A -> B) l :
+  find f (map g l) = option_map g (find (fun x => f (g x)) l).
+Proof. induction l as [|x l IH]; simpl; [reflexivity|]. destruct (f (g x)); [reflexivity|apply IH]. Qed.
+
+Lemma index_from_find r s : forall k0,
+  index_from r s k0 =
+  option_map (fun k => k0 + k) (find (fun k => beqb (firstn (length r) (skipn k s)) r) (seq 0 (S (length s)))).
+Proof.
+  induction s as [|c t IH]; intros k0.
+  - simpl. rewrite prefixb_firstn. simpl. destruct (beqb (firstn (length r) []) r); simpl; [f_equal; lia|reflexivity].
+  - cbn [index_from]. rewrite prefixb_firstn.
+    change (seq 0 (S (length (c :: t)))) with (0 :: seq 1 (S (length t))).
+    cbn [find]. change (skipn 0 (c :: t)) with (c :: t).
+    destruct (beqb (firstn (length r) (c :: t)) r); [simpl; f_equal; lia|].
+    rewrite <- seq_shift, find_map. cbn [skipn]. rewrite IH.
+    destruct (find _ _); simpl; [f_equal; lia|reflexivity].
+Qed.
+
+Lemma js_index_eq r s : js_index_of r s = str_index r s.
+Proof.
+  unfold js_index_of, str_index. rewrite index_from_find.
+  destruct (find _ _); reflexivity.
+Qed.
+
+Lemma js_up_eq c : js_up c = up_char c.
+Proof. destruct c as [[] [] [] [] [] [] [] []]; reflexivity. Qed.
+Lemma js_low_eq c : js_low c = low_char c.
+Proof. destruct c as [[] [] [] [] [] [] [] []]; reflexivity. Qed.
+
 (* ------------------------------------------------------------------ String methods *)
 Lemma map_str_rel l : Forall2 erel (map Str l) (map JStr l).
 Proof. induction l; simpl; constructor; auto. constructor. Qed.
@@ -426,7 +505,7 @@ Proof.
         replace (Nat.min (Z.to_nat z) (length s)) with (Z.to_nat z) by lia.
         unfold js_substring. rewrite skipn_firstn_all. constructor. constructor.
   - (* indexOf *)
-    destruct js as [|[|d| | | |] [|? ?]]; try discriminate. inv Hjs.
+    destruct js as [|[|d| | | |] [|? ?]]; try discriminate. rewrite js_index_eq in Hjs. inv Hjs.
     destruct args as [|a [|? ?]]; simpl in Hargs; try discriminate;
       [|destruct (jeval je a); [destruct (jeval je a0); [destruct (omap (jeval je) l)|]|]; discriminate].
     destruct (jeval je a) as [j|] eqn:Ea; [|discriminate]. inv Hargs.
@@ -451,7 +530,7 @@ Proof.
       change (match skipn (Z.to_nat z) s with [] => [] | a0 :: _ => [a0] end) with (firstn 1 (skipn (Z.to_nat z) s)).
       rewrite firstn1_skipn. constructor. constructor.
   - (* split *)
-    destruct js as [|[|d| | | |] [|? ?]]; try discriminate. inv Hjs.
+    destruct js as [|[|d| | | |] [|? ?]]; try discriminate. rewrite js_split_eq in Hjs. inv Hjs.
     destruct args as [|a [|? ?]]; simpl in Hargs; try discriminate;
       [|destruct (jeval je a); [destruct (jeval je a0); [destruct (omap (jeval je) l)|]|]; discriminate].
     destruct (jeval je a) as [j|] eqn:Ea; [|discriminate]. inv Hargs.
@@ -462,10 +541,63 @@ Proof.
     + rewrite Hlen. apply vr_arr.
   - (* toUpperCase *)
     destruct js; [|discriminate]. destruct args; [|simpl in Hargs; destruct (jeval je a); [destruct (omap (jeval je) args)|]; discriminate].
-    inv Hjs. exists [], None, []. simpl. do 2 eexists. repeat split; auto. constructor. constructor.
+    rewrite (map_ext _ _ js_up_eq) in Hjs. inv Hjs. exists [], None, []. simpl. do 2 eexists. repeat split; auto. constructor. constructor.
   - (* toLowerCase *)
     destruct js; [|discriminate]. destruct args; [|simpl in Hargs; destruct (jeval je a); [destruct (omap (jeval je) args)|]; discriminate].
-    inv Hjs. exists [], None, []. simpl. do 2 eexists. repeat split; auto. constructor. constructor.
+    rewrite (map_ext _ _ js_low_eq) in Hjs. inv Hjs. exists [], None, []. simpl. do 2 eexists. repeat split; auto. constructor. constructor.
+Qed.
+
+(* split then join with the same separator gives the string back: nothing is trimmed or dropped *)
+Lemma split_go_nonempty f sep s cur : split_go f sep s cur <> [].
+Proof. destruct f; simpl; [discriminate|]. destruct s; [discriminate|]. destruct (prefixb sep (a :: s)); [discriminate|].
+  revert a s cur. induction f; intros; simpl; [discriminate|]. destruct s; [discriminate|]. destruct (prefixb sep (a0 :: s)); [discriminate|apply IHf].
+Qed.
+
+Lemma join_cons sep x l : l <> [] -> join sep (x :: l) = x ++ sep ++ join sep l.
+Proof. destruct l; [congruence|reflexivity]. Qed.
+
+Lemma join_split_go sep : sep <> [] -> forall f s cur, length s < f -> join sep (split_go f sep s cur) = rev cur ++ s.
+Proof.
+  intros Hsep. induction f as [|f IH]; intros s cur Hf; [lia|]. simpl.
+  destruct s as [|c t]; [simpl; rewrite app_nil_r; reflexivity|].
+  destruct (prefixb sep (c :: t)) eqn:Ep.
+  - rewrite join_cons by apply split_go_nonempty.
+    apply prefixb_spec in Ep. destruct Ep as [r Er]. rewrite Er.
+    rewrite skipn_app, skipn_all, Nat.sub_diag. simpl skipn at 1. simpl app at 2.
+    rewrite IH; [reflexivity|]. simpl in Hf. assert (length (c :: t) = length (sep ++ r)) by congruence.
+    rewrite app_length in H. simpl in H. destruct sep; [congruence|]. simpl in H. lia.
+  - rewrite IH by (simpl in Hf; lia). simpl. rewrite <- app_assoc. reflexivity.
+Qed.
+
+Lemma join_explode (s : bytes) : join [] (map (fun c => [c]) s) = s.
+Proof. induction s as [|c [|d t] IH]; [reflexivity|reflexivity|]. 
+  change (join [] (map (fun c => [c]) (c :: d :: t))) with ([c] ++ [] ++ join [] (map (fun c => [c]) (d :: t))).
+  rewrite IH. reflexivity. Qed.
+
+Lemma split_join sep s : join sep (js_split sep s) = s.
+Proof.
+  rewrite js_split_eq. unfold str_split. destruct sep as [|a sep]; [apply join_explode|].
+  rewrite join_split_go; [reflexivity|discriminate|lia].
+Qed.
+
+(* the pieces: as many as there are matches found left to right without overlap, plus one; in
+   particular blanks at the ends and adjacent blanks give empty pieces *)
+Example split_blank_keeps_empty_pieces :
+  js_split (B " ") (B " a  b ") = [B ""; B "a"; B ""; B "b"; B ""] /\
+  js_split (B " ") (B "a" ++ ["009"%char] ++ B "b") = [B "a" ++ ["009"%char] ++ B "b"] /\
+  js_split (B "aa") (B "aaa") = [B ""; B "a"] /\
+  js_split (B "abc") (B "ab") = [B "ab"] /\
+  js_split (B ",") (B "") = [B ""] /\ js_split (B "") (B "") = [] /\
+  js_index_of (B "") (B "ab") = 0%Z /\ js_index_of (B "") (B "") = 0%Z /\ js_index_of (B "abc") (B "ab") = (-1)%Z /\
+  map js_up (B "az@[`{19 ") = B "AZ@[`{19 " /\ map js_low (B "AZ@[`{19 ") = B "az@[`{19 ".
+Proof. vm_compute. repeat split. Qed.
+
+Lemma js_string_readings r s :
+  js_split r s = str_split r s /\ js_index_of r s = str_index r s /\
+  map js_up s = map up_char s /\ map js_low s = map low_char s.
+Proof.
+  split; [apply js_split_eq|]. split; [apply js_index_eq|].
+  split; apply map_ext; [apply js_up_eq|apply js_low_eq].
 Qed.
 
 (* ------------------------------------------------------------------ call, statement, program *)
